@@ -92,6 +92,39 @@ func c06(r *sim.R) *sim.Violation {
 				b[pos] = 0
 				kind = "zeroed byte at the start of a block"
 			}
+		case 7:
+			// one field of the metadata (not a uniformly drawn position): the block count, the
+			// version, the day summary, or a descriptor / timestamp byte behind the header
+			f, isMeta = dir+"/.blockmeta", true
+			if b, ok = wd.fs.ReadRaw(tree, f); !ok || len(b) < 72 {
+				kind = "untouched"
+				break
+			}
+			pos, field := 0, ""
+			switch t.Draw(4) {
+			case 0, 1:
+				pos, field = 8+t.Draw(8), "block count"
+			case 2:
+				pos, field = []int{t.Draw(8), 16 + t.Draw(56)}[t.Draw(2)], "version or day summary"
+			default:
+				pos, field = 72, "descriptors and timestamps"
+				if len(b) > 73 {
+					pos += t.Draw(len(b) - 72)
+				}
+			}
+			if pos >= len(b) {
+				kind = "untouched"
+				break
+			}
+			switch t.Draw(3) {
+			case 0:
+				b[pos] = 0xff
+			case 1:
+				b[pos] = 0
+			default:
+				b[pos] ^= 1 << uint(t.Draw(8))
+			}
+			kind = "metadata field damaged: " + field
 		case 0:
 			n := 0
 			if len(b) > 0 {
